@@ -173,6 +173,8 @@ type Sim struct {
 
 	horizonHit   bool
 	regOverflow  bool
+	muteFail     bool
+	rootProbes   []probeCount
 	stepLimitHit bool
 
 	mu       sync.Mutex // engine-internal, only used under raceDisable
@@ -314,6 +316,9 @@ func taskMain(s *Sim, t *task, f func()) {
 //go:norace
 func Fail(oracle, msg string) {
 	s := cur
+	if s.muteFail && oracle != "panic" {
+		return
+	}
 	raceDisable()
 	s.mu.Lock()
 	if len(s.failures) < 64 {
@@ -322,6 +327,12 @@ func Fail(oracle, msg string) {
 	s.mu.Unlock()
 	raceEnable()
 }
+
+// MuteFailures makes Fail a no-op for everything but panics (used by the data-race workload,
+// which runs the scenarios of other properties only for the accesses they perform).
+//
+//go:norace
+func MuteFailures() { cur.muteFail = true }
 
 // Failf is Fail with formatting.
 func Failf(oracle, format string, args ...any) { Fail(oracle, fmt.Sprintf(format, args...)) }
@@ -572,6 +583,16 @@ func Record(kind, str string, p any, ints ...int64) {
 func Probe(site string) {
 	t := self()
 	if t == nil {
+		// the root goroutine (oracles evaluated after the run)
+		if s := cur; s != nil {
+			for i := range s.rootProbes {
+				if s.rootProbes[i].site == site {
+					s.rootProbes[i].n++
+					return
+				}
+			}
+			s.rootProbes = append(s.rootProbes, probeCount{site, 1})
+		}
 		return
 	}
 	for i := range t.probes {
@@ -664,6 +685,9 @@ func Run(t *testing.T, cfg Config, body func() func(h []Rec)) (res Result) {
 				after(res.History)
 			}()
 			res.Failures = append([]Failure(nil), s.failures...)
+			for _, p := range s.rootProbes {
+				res.Probes[p.site] += p.n
+			}
 		}
 		for _, tk := range s.tasks {
 			tk.done = true
